@@ -98,6 +98,7 @@ type Obs struct {
 	Removed  []string // removals --clean asked for (after veto)
 	Fired    []string // faults that actually fired
 	HashLeak bool
+	ExitCode int // L3 only: exit status of the process
 }
 
 // hookState is the per-invocation state behind the simhook function variables.
@@ -256,6 +257,9 @@ func newHookState(w *World, f Faults, protect []string) *hookState {
 // app.App.Run, file, task, cache, hash, shell (mvdan/sh), parser, lexer, ast —
 // inside one synctest bubble driven by the seeded scheduler.
 func (w *World) Invoke(in Invocation) *Obs {
+	if w.Level == "L3" {
+		return w.InvokeProc(in)
+	}
 	obs := &Obs{Counts: map[string]int{}}
 
 	// ---- process-global state of the simulated process
